@@ -660,6 +660,10 @@ class Engine:
             a_ = to_int(ev.ev(n.args[1], ctx))
             l_ = to_int(ev.ev(n.args[2], ctx))
             return V(STR, z3.SubString(s_.t, a_, l_))
+        if name == 'rematch':
+            P_ = ev.ev(n.args[0], ctx)
+            T_ = ev.ev(n.args[1], ctx)
+            return V(TList(INT), z3.Function('REMATCH', z3.StringSort(), z3.StringSort(), TList(INT).sort())(P_.t, T_.t))
         if name == 'litocc':
             P_ = ev.ev(n.args[0], ctx)
             T_ = ev.ev(n.args[1], ctx)
@@ -1377,6 +1381,22 @@ class Engine:
             return None
         g = n.generators[0]
         it = g.iter
+        if isinstance(it, ast.Call) and ast.unparse(it.func) == 're.finditer' and len(it.args) == 2 and not it.keywords \
+                and isinstance(g.target, ast.Name) and not g.ifs and isinstance(n.elt, ast.Call) and ast.unparse(n.elt) == g.target.id + '.start()':
+            # [m.start() for m in re.finditer(pattern, text)]: the offsets of the (non-overlapping) matches -- REMATCH(pattern, text), an
+            # ascending list of offsets inside the text, otherwise uninterpreted (LC-REGEX)
+            P_ = ev.unwrap_opt(ev.ev(it.args[0], ctx), ctx)
+            T_ = ev.unwrap_opt(ev.ev(it.args[1], ctx), ctx)
+            if P_.ty == STR and T_.ty == STR:
+                lt_ = TList(INT)
+                r_ = z3.Function('REMATCH', z3.StringSort(), z3.StringSort(), lt_.sort())(P_.t, T_.t)
+                j_, k_ = fresh('j', z3.IntSort()), fresh('k', z3.IntSort())
+                ctx.assume(lt_.n(r_) >= 0)
+                ctx.assume(z3.ForAll([k_], z3.Implies(z3.And(0 <= k_, k_ < lt_.n(r_)),
+                                                      z3.And(0 <= z3.Select(lt_.arr(r_), k_), z3.Select(lt_.arr(r_), k_) <= z3.Length(T_.t)))))
+                ctx.assume(z3.ForAll([j_, k_], z3.Implies(z3.And(0 <= j_, j_ < k_, k_ < lt_.n(r_)), z3.Select(lt_.arr(r_), j_) < z3.Select(lt_.arr(r_), k_))))
+                self.libs_used.add('LC-REGEX: re.finditer(pattern, text) yields matches at ascending offsets inside the text; which offsets is the regular-expression engine\'s business')
+                return V(lt_, r_)
         if not (isinstance(it, ast.Call) and ast.unparse(it.func) == 're.finditer' and len(it.args) == 2 and len(it.keywords) == 1
                 and it.keywords[0].arg == 'overlapped' and isinstance(it.keywords[0].value, ast.Constant) and it.keywords[0].value.value is True
                 and isinstance(g.target, ast.Name)):
